@@ -10,6 +10,7 @@ import BV.C12.Model
 import BV.C12.Spec
 import BV.C12.Gen
 import BV.C12.Lemmas4
+import BV.C12.Lemmas5
 import BV.Generated.C12
 namespace BV.C12
 open Spec
@@ -135,6 +136,25 @@ theorem generation_succeeds_partial (law : QueueLaw ops) (e : Env) (pool : List 
     newBlockTemplate ops e pool fuel = Result.ok (candidate ops e pool fuel) := by
   unfold newBlockTemplate
   simp [template_valid law e pool fuel hp he hno hmax]
+
+/-- `UpdateBlockTime` / `UpdateExtraNonce`: a generated template stays valid when the clock has moved
+forward (the header takes max(now', MTP+1)) and the coinbase script is replaced (coinbase weight
+`cbw'`), as long as the block with the new coinbase is within the consensus weight. -/
+theorem update_keeps_valid (law : QueueLaw ops) (e : Env) (pool : List Tx) (fuel : Nat)
+    (hp : PoolOk pool) (he : EnvOk e) (hno : feesNotOverstatedB e pool = true)
+    (hmax : e.maxWeight ≤ MAX_BLOCK_WEIGHT) (now' : Int) (cbw' : Nat) (hn : e.now ≤ now')
+    (hw : Spec.blockWeight (e.updated now' cbw') pool (candidate ops e pool fuel) ≤ MAX_BLOCK_WEIGHT) :
+    blockValid (e.updated now' cbw') pool (candidate ops e pool fuel) = true :=
+  blockValid_updated e pool _ now' cbw' hn (template_valid law e pool fuel hp he hno hmax) hw
+
+/-- … in particular updating only the time never invalidates it. -/
+theorem update_time_keeps_valid (law : QueueLaw ops) (e : Env) (pool : List Tx) (fuel : Nat)
+    (hp : PoolOk pool) (he : EnvOk e) (hno : feesNotOverstatedB e pool = true)
+    (hmax : e.maxWeight ≤ MAX_BLOCK_WEIGHT) (now' : Int) (hn : e.now ≤ now') :
+    blockValid (e.updated now' e.cbWeight) pool (candidate ops e pool fuel) = true := by
+  apply update_keeps_valid law e pool fuel hp he hno hmax now' e.cbWeight hn
+  have := (limits_respected law e pool fuel hp he).2.1 hmax
+  exact this
 
 /-- container/heap is a lawful queue, so all of the above holds for the algorithm the driver runs. -/
 theorem template_valid_heap (e : Env) (pool : List Tx) (fuel : Nat)
